@@ -92,6 +92,8 @@ def shard(m, items, maxwords=3):
         m.add('programs')
         ref = Ref(g, Cfg(ignorecase=ic, keywords=ks))
         folded = {k.upper() if ic else k for k in ks}
+        if ks:
+            impl.rule_reach(m, 'shape-rules', f'{shape}/{icmode}', model, inputs, **settings)
         nkw = 0
         for t in inputs:
             sem = LogNames()
